@@ -182,10 +182,9 @@ CLAIMED = {
             "sequence is a prefix of the send order (tail-exchange / high-CAS order), per-sender order, capacity and no overwrite, a receiver on its "
             "way to sleep with a message linked has a committed raiser; multi channel (the repaired two-list code) — mutual exclusion of the channel lock (including the deferred "
             "unlock by the successor's maintenance), hence capacity and exactly-once in order unconditionally (Properties_C11_excl.v); "
-            "no stranded sender/receiver proved on the abstract attempt-level protocol for any "
-            "number of senders/receivers and any capacity. The pre-repair one-list protocol is kept as a refuted regression witness. Tied to /repo by "
+            "no stranded sender/receiver for arbitrary programs, any number of fibers and any capacity, proved on the access-level model itself (wake-credit invariant, Properties_C11_ref.v; when nobody can run every unfinished fiber is a sender blocked on a full or a receiver blocked on an empty channel, none is left in the mutex queue). The pre-repair one-list protocol is kept as a refuted regression witness. Tied to /repo by "
             "per-access lock-step of fiber_signal.h, fiber_channel.h, fiber_multi_channel.h + fiber_manager.c on five harness/model pairs.",
-            "Partial: the refinement from the access-level multi-channel model to the abstract protocol (one locked attempt = one abstract step) is not proved; the "
+            "Partial: the "
             "single-producer channel is lock-step + monitor only. Trusts: Coq kernel; extraction + driver; rt/rt.c, rt/t1.c (given C01, C02); SC "
             "interleaving; single-waiter discipline of signals as a hypothesis on programs.",
             "DESIGN.md 6 C11, 12.3"),
